@@ -1,20 +1,30 @@
 #!/usr/bin/env python3
-"""Apply a patch to /repo, run the quick checks (no evidence written), undo the patch.
-usage: seedcheck.py <patch.diff> [PROP ...]   (default: all 20)"""
+"""Run the quick checks (no evidence written) against a tree with a seeded change.
+usage: seedcheck.py <patch.diff> [PROP ...]        apply to /repo, run, undo (the sanctioned way; /repo must be clean)
+       seedcheck.py --tree <dir> [PROP ...]         run against an already patched scratch tree (RIP_REPO=<dir>), /repo untouched"""
 import subprocess, sys, os, json
 V = os.path.dirname(os.path.dirname(os.path.abspath(__file__)))
-patch = sys.argv[1]
-props = [p.upper() for p in sys.argv[2:]] or ['C%02d' % i for i in range(1, 21)]
-st = subprocess.run(['git', '-C', '/repo', 'status', '--porcelain'], capture_output=True, text=True).stdout.strip()
-if st:
-    print('refusing: /repo is not clean:\n' + st); sys.exit(3)
-r = subprocess.run(['git', '-C', '/repo', 'apply', patch], capture_output=True, text=True)
-if r.returncode != 0:
-    print('patch does not apply:', r.stderr); sys.exit(3)
+args = sys.argv[1:]
+tree = None
+if args[0] == '--tree':
+    tree = args[1]; args = args[2:]; patch = tree
+else:
+    patch = args[0]; args = args[1:]
+props = [p.upper() for p in args] or ['C%02d' % i for i in range(1, 21)]
+env = dict(os.environ)
+if tree:
+    env['RIP_REPO'] = tree
+else:
+    st = subprocess.run(['git', '-C', '/repo', 'status', '--porcelain'], capture_output=True, text=True).stdout.strip()
+    if st:
+        print('refusing: /repo is not clean:\n' + st); sys.exit(3)
+    r = subprocess.run(['git', '-C', '/repo', 'apply', patch], capture_output=True, text=True)
+    if r.returncode != 0:
+        print('patch does not apply:', r.stderr); sys.exit(3)
 res = {}
 try:
     for p in props:
-        c = subprocess.run([os.path.join(V, 'check'), p, '--no-write'], capture_output=True, text=True, cwd=V)
+        c = subprocess.run([os.path.join(V, 'check'), p, '--no-write'], capture_output=True, text=True, cwd=V, env=env)
         lines = [l for l in c.stdout.splitlines() if l.startswith('  C') or l.startswith('CHECK-ERROR')]
         res[p] = (c.returncode, lines)
         if c.returncode != 0:
@@ -22,6 +32,7 @@ try:
             for l in lines[:6]:
                 print('   ' + l[:300])
 finally:
-    subprocess.run(['git', '-C', '/repo', 'checkout', '--', '.'])
-    subprocess.run(['git', '-C', '/repo', 'clean', '-fdq', '-e', 'target'])
+    if not tree:
+        subprocess.run(['git', '-C', '/repo', 'checkout', '--', '.'])
+        subprocess.run(['git', '-C', '/repo', 'clean', '-fdq', '-e', 'target'])
 print('SUMMARY', os.path.basename(os.path.dirname(patch)) + '/' + os.path.basename(patch), {p: rc for p, (rc, _) in res.items() if rc != 0} or 'no alarm')
